@@ -3,6 +3,7 @@
 # on a scratch worktree of /repo HEAD; every one must stay silent.
 set -u
 . /verif/zogcheck/env.sh
+export GOFLAGS="-mod=mod -trimpath"  # scratch worktrees in different directories share build-cache entries
 diffs=${*:-$(ls /verif/robust/R*/refactor*.diff)}
 one() {
   diff=$1
@@ -23,3 +24,4 @@ export RC_LINES=${RC_LINES:-8}
 for d in $diffs; do echo $d; done | xargs -P 6 -I{} bash -c "one {}" 
 git -C /repo worktree prune
 rm -rf $RCV
+/verif/tools/trimcache.sh
